@@ -28,7 +28,8 @@ def run_one(mod, prop, tier, seed, index):
     from mon import gen
     # long histories: in the thorough tier every tenth case multiplies the length of its mixed-call section (60-120 calls)
     gen.LEN_SCALE = (6 if (index // 70) % 2 else 3) if (tier == "thorough" and (index // 7) % 10 == 9) else 1
-    ctx.count("long_history_cases", 1 if gen.LEN_SCALE > 1 else 0)
+    if gen.LEN_SCALE > 1:
+        ctx.count("long_history_cases")
     mod.run_case(rs, ctx)
     return ctx
 
